@@ -24,7 +24,7 @@ ASSUMPTIONS = [
     "separate_complex_types is applied to a deep copy (it reorders its argument in place, which C12 excludes from purity)",
 ]
 TIERS = {
-    "quick": {"examples": 4000, "sets_per_doc": 3, "corpus_sets": 5, "budget_s": 110},
+    "quick": {"examples": 8000, "sets_per_doc": 3, "corpus_sets": 8, "budget_s": 110},
     "thorough": {"examples": 80000, "sets_per_doc": 4, "corpus_sets": 120, "budget_s": 1800, "second_interp": 40},
 }
 PARTS = ["corpus_part", "search"]
